@@ -1,6 +1,8 @@
 CONSTANTS
   Paths <- PathsT
   Cat <- CatT
+  Inert <- InertT
+  Unseen = {}
   Txns = {}
   RestoreWrongDirection = FALSE
   PublishBeforeInit = FALSE
